@@ -94,22 +94,7 @@ theorem remaining_push (files : List (Bytes × FileSt)) (parsing : List Bytes) (
     remaining files (parsing ++ [name]) < remaining files parsing :=
   filter_push_lt _ parsing name hm hn
 
-theorem probeCache_files (p : Bytes) : ∀ (es : List Bytes) (s : SetSt), (probeCache s p es).2.files = s.files := by
-  intro es
-  induction es with
-  | nil => intro s; rfl
-  | cons e es ih =>
-    intro s
-    unfold probeCache cacheGet
-    cases lookupP (p ++ e) s.cache with
-    | some id => rfl
-    | none => simp only; rw [ih]; rfl
-
-theorem fromCache_files (s : SetSt) (p : Bytes) : (fromCache s p).2.files = s.files := by
-  unfold fromCache cacheGet
-  cases lookupP p s.cache with
-  | some id => rfl
-  | none => simp only; rw [probeCache_files]; rfl
+theorem fromCache_files (s : SetSt) (p : Bytes) : (fromCache s p).2.files = s.files := rfl
 
 theorem probeLoader_files (p : Bytes) : ∀ (es : List Bytes) (s : SetSt), (probeLoader s p es).2.files = s.files := by
   intro es
